@@ -609,6 +609,13 @@ def _draw_spec(draw, state, kinds, counter):
         if k == 'sources':
             spec['rows2'] = [{'id': 1, 'w': 'only'}]
         return spec
+    if k == 'load_csv' and draw(st.integers(0, 4)) == 0:
+        # repeated header names, one of which already looks like a de-duplicated name
+        nr = draw(st.integers(1, 3))
+        return {'k': k, 'name': 'csv%d' % n, 'header': ['id', 'amount', 'amount', 'amount (1)', 'Amount'],
+                'cells': [[str(j + 1), str(10 + j), str(20 + j), str(30 + j), str(40 + j)] for j in range(nr)],
+                'options': dict(draw(st.sampled_from([{'cast_strategy': 'schema'}, {'infer_strategy': 'strings'}])),
+                                deduplicate_headers=True)}
     if k == 'load_csv':
         nr = draw(st.integers(0, 3))
         return {'k': k, 'name': 'csv%d' % n, 'header': ['id', 'label', 'amount'],
